@@ -46,6 +46,22 @@ theorem orig_stable :
       ∧ sites.all (fun s => !aliasedRestored.contains s.field || s.kind = "assign" || s.kind = "literal") = true := by
   decide +kernel
 
+/-- What `Run` does to the Runner on every call, besides running the node: it writes exactly
+    `exit` (zeroed, unconditionally), `filename` and `lastExit` (`= r.exit`, unconditionally), calls
+    `Reset` only under `!r.didReset`, and otherwise only `fillExpandConfig`, the node runners and
+    `trapCallback`.  Every other field — loop control counts, options, traps, functions, aliases,
+    parameters, directory — is left exactly as the previous call left it, which is what makes one
+    `Run` per top-level statement equal to the whole-file loop (Part C models these three writes).
+    A new per-call reset of a field that a whole-file run keeps between statements breaks this. -/
+theorem run_prologue :
+    runWrites.all (fun w => (runWritesExpected.any fun x => x.1 = w.field) && w.op = "assign") = true
+      ∧ runWritesExpected.all (fun x => runWrites.any fun w => w.field = x.1) = true
+      ∧ (runWrites.filter fun w => w.field = "exit").all (fun w => w.guards = [] && w.val.kind = "fresh") = true
+      ∧ (runWrites.filter fun w => w.field = "lastExit").all (fun w => w.guards = [] && w.val.kind = "self" && w.val.field = "exit") = true
+      ∧ runCalls.all (fun c => runCallsExpected.contains c.name) = true
+      ∧ (runCalls.filter fun c => c.name = "Reset").all (fun c => c.guards = ["notDidReset"]) = true := by
+  decide +kernel
+
 /-! ### Part B — Reset only depends on the stable fields -/
 
 /-- Interpreting the regenerated Reset table symbolically (`resetSym`: the literal, then the
